@@ -441,7 +441,7 @@ def exp_entry(e, cx):
         exp_registered(e, out)
         out['error_domain'] = e.get('error_domain')
         mis = [m for m in e['members'] if m.get('attrs')]
-        holder_ok = not (mis and cx.known('annotation-misattached'))
+        holder_ok = not (mis and cx.known('annotation-misattached:enum-member'))
         if holder_ok:
             out['attrs'] = exp_attrs(e)
         vals = []
